@@ -348,7 +348,8 @@ def o_c17(cimp, ctx):
         ops = ctx["case"]["ops"]
         bidx = [i for i, o in enumerate(ops) if o["op"] == "build"]
         me = bidx[ctx["bi"]]
-        if ops[me - 1]["op"] == "build" and pop["tasks"] == tasks and not cfg["force"] and not starts:
+        # (a dry run only announces PERSISTENCE and records nothing, so it is not "the previous build" here)
+        if ops[me - 1]["op"] == "build" and pop["tasks"] == tasks and not cfg["force"] and not starts and not pop["cfg"]["dry_run"]:
             for t, o in pc["reports"]:
                 if o == O["PERSISTENCE"] and rep.get(t) not in (O["SKIP_UNCHANGED"], O["SKIP"], None):
                     probs.append((f"task {t} was persisted in the previous build but is now reported {OUTCOMES[rep[t]]}", ()))
